@@ -133,9 +133,15 @@ def run(ctx: Ctx) -> Result:
         else:
             cases.append(c)
     for i in range(ctx.n(40, 400)):
-        m = gen.rand_model(rng, {"max_cells": 800, "p_e": 0.4, "p_state_filter": 0.4})
+        m = gen.rand_model(rng, {"max_cells": 800, "p_e": 0.5, "p_h_stoch": 0.8, "p_state_filter": 0.4})
         cases.append({"fn": "lifecycle", "kind": "random accepted model", "mdl": m, "rules": [], "expected_stage": "none", "variant": 0,
                       "init": init_for(rng, m, rng.choice([1, 3])), "seed": i, "jit": i % 2 == 0})
+    # accepted instances of every template (no rule violated), several per template
+    for tname, prof in TEMPLATES:
+        for k in range(ctx.n(3, 12)):
+            m = gen.rand_model(rng, prof)
+            cases.append({"fn": "lifecycle", "kind": f"accepted instance of template '{tname}'", "mdl": m, "rules": [], "expected_stage": "none",
+                          "variant": 0, "init": init_for(rng, m, 3), "seed": k, "jit": k % 2 == 0})
     for i, c in enumerate(cases):
         c["cid"] = i
     run_unit_cases(ctx, res, cases, chunk=12, sample_keys=("kind", "label", "rules", "mdl_summary", "variant"),
